@@ -1,12 +1,13 @@
 import PoryProofs.ProgramIds
+import PoryProofs.ProgramConst
 import PoryProofs.ProgramGrammar
 import PoryProofs.HoistLemmas
 /-
 P2 helpers: the frame lemma of the file elaboration.
 
 Two runs of `elabTops env ts` from states `a0` (the "alone" run) and `b0` (the run inside a bigger file) that
-agree on the constants and — on the hoisted text / movement keys and script names `ts` uses (`Dom`) — on the
-dedupe tables and label counters, while the two id counters of `b0` are ahead by `(dc, ds)`:
+agree — on the token literals, hoisted text / movement keys and script names `ts` uses (`Dom`) — on the
+constants, the dedupe tables and the label counters, while the two id counters of `b0` are ahead by `(dc, ds)`:
 * fail with the same error, or both succeed;
 * the statements are the same up to the shift of command ids by `dc` and scope ids by `ds` (`relTop`), every
   command id of the alone run lying between its counters;
@@ -93,9 +94,10 @@ theorem addImp_textStatements (imp : ImpData) (s : PState) : (addImp imp s).text
 
 /-! ### the hoisting tables -/
 
-/-- The hoisted-text keys `(terminated value, string type)`, hoisted-movement keys and script names on which
-two states are compared. -/
+/-- The token literals, hoisted-text keys `(terminated value, string type)`, hoisted-movement keys and script
+names on which two states are compared. -/
 structure Dom where
+  lit : String → Prop
   kt : String × String → Prop
   km : String → Prop
   n : String → Prop
@@ -225,10 +227,11 @@ theorem addImp_frame {D : Dom} {R : Ren} {a b : PState} (hH : Hoist D a b) {imp'
 
 /-! ### the frame lemma for one statement and for a file -/
 
-/-- The alone state `a` and the state `b` inside the bigger file: same constants, empty stacks, the counters of
-`b` ahead by `(dc, ds)`, dedupe tables and label counters agreeing on the domain. -/
+/-- The alone state `a` and the state `b` inside the bigger file: the same constants at the literals of the
+domain, empty stacks, the counters of `b` ahead by `(dc, ds)`, dedupe tables and label counters agreeing on the
+domain. -/
 structure Agree (D : Dom) (dc ds : Nat) (a b : PState) : Prop where
-  consts : b.constants = a.constants
+  consts : ∀ v, D.lit v → b.constants.lookup v = a.constants.lookup v
   ba : a.breakStack = []
   ca : a.continueStack = []
   bb : b.breakStack = []
@@ -253,8 +256,10 @@ theorem RelTop.mono {R Q : Ren} (h : R.Sub Q) : ∀ {t' t : Top}, RelTop R t' t 
   | _, _, .script h1 h2 h3 h4 => .script h1 h2 h3 (RelL.mono h h4)
   | _, _, .same t ht => .same t ht
 
-/-- The implicit data of the script `t` (elaborated from `s`) stays inside the domain. -/
+/-- The literals of the tokens of `t`, and the implicit data of the script `t` (elaborated from `s`), stay inside
+the domain. -/
 def StepUses (env : Env) (D : Dom) (t : STop) (s : PState) : Prop :=
+  (∀ tok ∈ printTop t, D.lit tok.lit) ∧
   match t with
   | .script _ _ name _ body _ =>
       match elabE env name.lit (ctxOf s) body with
@@ -271,9 +276,30 @@ def Uses (env : Env) (D : Dom) : List STop → PState → Prop
         | .ok (_, s1) => Uses env D r s1
         | .error _ => True
 
-theorem ctxOf_agree {D : Dom} {dc ds : Nat} {a b : PState} (h : Agree D dc ds a b) :
-    ctxOf b = { ctxOf a with nextSid := (ctxOf a).nextSid + ds, nextCmdId := (ctxOf a).nextCmdId + dc } := by
-  simp [ctxOf, h.consts, h.ba, h.ca, h.bb, h.cb, h.cid, h.sid]
+theorem substC_agree {D : Dom} {dc ds : Nat} {a b : PState} (h : Agree D dc ds a b) {l : List Tok}
+    (hl : ∀ tok ∈ l, D.lit tok.lit) : AgreeOn (substC b.constants) (substC a.constants) l := by
+  intro tok ht
+  unfold substC
+  rw [h.consts _ (hl tok ht)]
+
+/-- A script body elaborated from `b` is the body elaborated from `a`, shifted. -/
+theorem elabE_frame (env : Env) (sn : String) {D : Dom} {dc ds : Nat} {a b : PState} (h : Agree D dc ds a b)
+    (body : List SStmt) (hl : ∀ tok ∈ printL body, D.lit tok.lit) :
+    elabE env sn (ctxOf b) body =
+      match elabE env sn (ctxOf a) body with
+      | .error e => .error e
+      | .ok (stmts, imp, c') =>
+        .ok (mapL (· + dc) (· + ds) stmts, mapImp (· + dc) imp,
+             { ctxOf b with nextSid := c'.nextSid + ds, nextCmdId := c'.nextCmdId + dc }) := by
+  unfold elabE
+  simp only [ctxOf, h.ba, h.ca, h.bb, h.cb, h.cid, h.sid]
+  rw [elabL_congr env sn body (substC_agree h hl)]
+  have hs := elabL_shift env sn (substC a.constants) ds dc body [] [] true a.nextSid a.nextCmdId
+  simp only [List.map_nil] at hs
+  rw [hs]
+  cases elabL env sn (substC a.constants) [] [] true body a.nextSid a.nextCmdId with
+  | error e => rfl
+  | ok q => obtain ⟨x, m, s1, c1⟩ := q; rfl
 
 theorem stepTop_frame (env : Env) (D : Dom) (dc ds : Nat) (t : STop) {a b : PState} (hA : Agree D dc ds a b)
     (hU : StepUses env D t a) :
@@ -285,9 +311,10 @@ theorem stepTop_frame (env : Env) (D : Dom) (dc ds : Nat) (t : STop) {a b : PSta
         Delta (Rb dc ds a.nextCmdId a1.nextCmdId) a b a1 b1 := by
   cases t with
   | script kw md name lb body rb =>
-    simp only [stepTop, ctxOf_agree hA]
-    rw [elabE_shift env name.lit (ctxOf a) hA.ba hA.ca ds dc body]
-    simp only [StepUses] at hU
+    obtain ⟨hlit, hU⟩ := hU
+    simp only at hU
+    simp only [stepTop]
+    rw [elabE_frame env name.lit hA body (fun tok ht => hlit tok (by simp [printTop, printStmts, ht]))]
     cases he : elabE env name.lit (ctxOf a) body with
     | error e => rfl
     | ok q =>
@@ -321,22 +348,40 @@ theorem stepTop_frame (env : Env) (D : Dom) (dc ds : Nat) (t : STop) {a b : PSta
     simp only [stepTop]
     exact ⟨_, _, rfl, hA, Nat.le_refl _, ⟨.same _ rfl, trivial⟩, Delta.refl _ _ _⟩
   | const kw name eq vs =>
-    simp only [stepTop, hA.consts]
+    obtain ⟨hlit, _⟩ := hU
+    have hn : b.constants.lookup name.lit = a.constants.lookup name.lit :=
+      hA.consts _ (hlit name (by simp [printTop]))
+    have hacc : constAcc b.constants vs "" = constAcc a.constants vs "" := by
+      unfold constAcc
+      have : vs.map (fun v => substC b.constants v.lit) = vs.map (fun v => substC a.constants v.lit) :=
+        List.map_congr_left (fun v hv => substC_agree hA (l := vs)
+          (fun tok ht => hlit tok (by simp [printTop, ht])) v hv)
+      rw [this]
+    simp only [stepTop, hn, hacc]
     by_cases hdup : (a.constants.lookup name.lit).isSome = true
     · simp only [hdup, if_true]
     · simp only [hdup, Bool.false_eq_true, if_false]
       by_cases hval : constAcc a.constants vs "" = ""
       · simp only [hval, if_true]
       · simp only [hval, if_false]
-        exact ⟨_, _, rfl, ⟨by simp, hA.ba, hA.ca, hA.bb, hA.cb, hA.cid, hA.sid,
+        refine ⟨_, _, rfl, ⟨?_, hA.ba, hA.ca, hA.bb, hA.cb, hA.cid, hA.sid,
           ⟨hA.hoist.ts, hA.hoist.tc, hA.hoist.ms, hA.hoist.mc⟩⟩, Nat.le_refl _, trivial,
           ⟨⟨[], by simp, by simp⟩, ⟨[], by simp, by simp⟩, ⟨[], by simp, by simp⟩,
             ⟨[], [], by simp, by simp, trivial⟩⟩⟩
+        intro v hv
+        simp only [List.lookup_cons]
+        cases v == name.lit with
+        | true => rfl
+        | false => exact hA.consts v hv
   | movement kw md name lb items rb =>
     simp only [stepTop]
     exact ⟨_, _, rfl, hA, Nat.le_refl _, ⟨.same _ rfl, trivial⟩, Delta.refl _ _ _⟩
   | mart kw md name lb items rb =>
-    simp only [stepTop, hA.consts]
+    obtain ⟨hlit, _⟩ := hU
+    have : items.map (fun t => substC b.constants t.lit) = items.map (fun t => substC a.constants t.lit) :=
+      List.map_congr_left (fun v hv => substC_agree hA (l := items)
+        (fun tok ht => hlit tok (by simp [printTop, ht])) v hv)
+    simp only [stepTop, this]
     exact ⟨_, _, rfl, hA, Nat.le_refl _, ⟨.same _ rfl, trivial⟩, Delta.refl _ _ _⟩
   | text kw md name lb v rb =>
     simp only [stepTop]
